@@ -73,10 +73,10 @@ def run_dce_keep(prog, tier, repo):
         tests = variant_tests(prog, b, binop.id)
         bidx = {v.name: i for i, v in enumerate(binop.variants)}
         cfg = cfg_of(b)
+        from ..tables import excluded_variants
         for trap in ('DIV', 'MOD'):
             key = f'keep:Binary:{trap}'
-            ne = [e for t in tests if t['variant'] == bidx.get(trap) for e in t['ne_edges']]
-            bad = [x for x in fb if not (ne and cfg.edges_dominate(ne, x[0]))]
+            bad = [x for x in fb if bidx.get(trap) not in excluded_variants(prog, b, binop.id, x[0])]
             if not fb:
                 res.ok(key, b.loc(), 'Binary arm never removes the statement')
             elif bad:
